@@ -2,20 +2,41 @@ package main
 
 import (
 	"fmt"
-	"golang.org/x/tools/go/packages"
-	"golang.org/x/tools/go/ssa"
-	"golang.org/x/tools/go/ssa/ssautil"
+	"os"
+
+	"verif/checker/effects"
+	"verif/checker/load"
+	"verif/checker/report"
 )
 
 func main() {
-	cfg := &packages.Config{Mode: packages.LoadSyntax, Dir: "/repo"}
-	pkgs, err := packages.Load(cfg, "./...")
+	cfg := "amd64"
+	if len(os.Args) > 1 {
+		cfg = os.Args[1]
+	}
+	p, err := load.Load(cfg)
 	if err != nil {
-		panic(err)
+		fmt.Println("ERR", err)
+		os.Exit(2)
 	}
-	prog, spkgs := ssautil.Packages(pkgs, ssa.BuilderMode(0))
-	prog.Build()
-	for _, p := range spkgs {
-		fmt.Println(p.Pkg.Path(), len(p.Members))
+	a := effects.Run(p)
+	for _, pr := range append(p.Problems, a.Problems...) {
+		fmt.Println("PROBLEM", pr)
 	}
+	var all []report.Obligation
+	all = append(all, a.RInitReceivers(nil)...)
+	all = append(all, a.RInitLocals(nil)...)
+	all = append(all, a.RAlias()...)
+	all = append(all, a.RReadOnly()...)
+	all = append(all, a.RFresh()...)
+	all = append(all, a.RGlobal()...)
+	all = append(all, a.RAtomic()...)
+	cnt := map[string]int{}
+	for _, o := range all {
+		cnt[o.Rule]++
+		if !o.OK || len(os.Args) > 2 {
+			fmt.Printf("%v %s @%s: %s\n", o.OK, o.Key, o.Pos, o.Detail)
+		}
+	}
+	fmt.Println(cnt, a.Stats())
 }
